@@ -644,6 +644,11 @@ theorem get_evalDecider_out1 (conds : List Cond) (o : DOut) (t : Sig) (hc : cond
   · simp [h, DOut.emit, ho]
   · simp [h]
 
+theorem cmp_mirror (op : CmpOp) (a b : I32) : cmp op.mirror b a = cmp op a b := by
+  cases op <;> simp [CmpOp.mirror, cmp]
+  · exact Bool.beq_comm
+  · simp [bne, Bool.beq_comm (a := b)]
+
 theorem condsMatch_sound (x : Ctx) (n e : Nat) (ih : ∀ m, m < n → Holds x.E x.nodes x.env x.bind m) :
     ∀ (conds : List Cond) (cs : List (CmpOp × Arg × Arg)),
       cs.all (fun (_, a, b) => argBelow n a && argBelow n b) = true →
@@ -664,16 +669,19 @@ theorem condsMatch_sound (x : Ctx) (n e : Nat) (ih : ∀ m, m < n → Holds x.E 
     | nil => simp [condsMatch] at h
     | cons c1 cs' =>
       obtain ⟨op, a, b⟩ := c1
-      simp only [condsMatch, Bool.and_eq_true, Bool.not_eq_true', beq_iff_eq] at h
-      obtain ⟨⟨⟨⟨hu, hop⟩, h1⟩, h2⟩, hrest⟩ := h
+      simp only [condsMatch, Bool.and_eq_true, Bool.or_eq_true, Bool.not_eq_true', beq_iff_eq] at h
+      obtain ⟨⟨hu, hrow⟩, hrest⟩ := h
       simp only [List.all_cons, Bool.and_eq_true] at hb
       obtain ⟨⟨hba, hbb⟩, hb'⟩ := hb
       obtain ⟨hu', hmap⟩ := ihc cs' hb' hrest
       refine ⟨by simp [hu, hu'], ?_⟩
       simp only [List.map_cons, hmap]
       congr 1
-      rw [cond_eval_plain cd _ _ (matchOperand_plain _ _ _ _ _ _ h1) hu,
-        matchOperand_sound x e cd.first a n hba ih h1, matchOperand_sound x e cd.second b n hbb ih h2, hop]
+      rcases hrow with ⟨⟨hop, h1⟩, h2⟩ | ⟨⟨hop, h1⟩, h2⟩
+      · rw [cond_eval_plain cd _ _ (matchOperand_plain _ _ _ _ _ _ h1) hu,
+          matchOperand_sound x e cd.first a n hba ih h1, matchOperand_sound x e cd.second b n hbb ih h2, hop]
+      · rw [cond_eval_plain cd _ _ (matchOperand_plain _ _ _ _ _ _ h1) hu,
+          matchOperand_sound x e cd.first b n hbb ih h1, matchOperand_sound x e cd.second a n hba ih h2, hop, cmp_mirror]
 
 theorem all_map_eq {α β} (l1 : List α) (l2 : List β) (f : α → Bool) (g : β → Bool) (h : l1.map f = l2.map g) :
     l1.all f = l2.all g := by
@@ -1154,8 +1162,11 @@ theorem lowerings_sound (nodes : Array CNode) (env : Env) :
         rw [hk] at h hargs
         simp only [CNode.argsBelow, Bool.and_eq_true] at hargs
         simp only [List.mem_cons, List.not_mem_nil, or_false] at h
-        subst h
-        simp [VExpr.val, nodeVal_cmp nodes env m hm op a b ty hk hargs.1 hargs.2]
+        rcases h with h | h
+        · subst h
+          simp [VExpr.val, nodeVal_cmp nodes env m hm op a b ty hk hargs.1 hargs.2]
+        · subst h
+          simp [VExpr.val, nodeVal_cmp nodes env m hm op a b ty hk hargs.1 hargs.2, cmp_mirror]
       | lnot a ty =>
         rw [hk] at h hargs
         simp only [CNode.argsBelow] at hargs
@@ -1166,10 +1177,14 @@ theorem lowerings_sound (nodes : Array CNode) (env : Env) :
         rw [hk] at h hargs
         simp only [CNode.argsBelow, Bool.and_eq_true] at hargs
         simp only [List.mem_cons, List.not_mem_nil, or_false] at h
-        subst h
-        simp only [VExpr.val]
-        rw [nodeVal_gate nodes env m hm op a b w ty hk hargs.1.1 hargs.1.2 hargs.2]
-        split <;> rename_i hc <;> simp [hc]
+        rcases h with h | h
+        · subst h
+          simp only [VExpr.val]
+          rw [nodeVal_gate nodes env m hm op a b w ty hk hargs.1.1 hargs.1.2 hargs.2]
+          split <;> rename_i hc <;> simp [hc]
+        · subst h
+          simp only [VExpr.val, cmp_mirror]
+          rw [nodeVal_gate nodes env m hm op a b w ty hk hargs.1.1 hargs.1.2 hargs.2]
       | proj a ty =>
         rw [hk] at h hargs
         simp only [CNode.argsBelow] at hargs
@@ -2066,6 +2081,38 @@ theorem sound_lowered (x : Ctx) (n e : Nat) (s : Sig) (hn : n < x.nodes.size)
   rw [entIs_sound x n ih v e s hp.1 hp.2]
   exact lowerings_sound x.nodes x.env (n + 1) n v hv hn
 
+/-- a constant-leaved node folded into a constant combinator -/
+theorem sound_folded (x : Ctx) (n e : Nat) (s : Sig) (hn : n < x.nodes.size)
+    (hbind : x.bind n = some (.ent e s))
+    (hni : ∀ name ty v, x.nodes[n]? ≠ some (.input name ty v))
+    (h : foldedIs x.c x.nodes n e s = true) :
+    Holds x.E x.nodes x.env x.bind n := by
+  unfold Holds
+  rw [hbind]
+  show get (x.E e) s = nodeVal x.nodes x.env n
+  have hno : x.inp e = none := x.hagree.2.1 n e s hbind hni
+  unfold foldedIs at h
+  cases hkind : x.c.kind e with
+  | const m =>
+    rw [hkind] at h
+    cases hcv : constVal x.nodes (n + 1) n with
+    | none =>
+      rw [hcv] at h
+      match m, h with
+      | [], h => simp at h
+      | [_], h => simp at h
+      | _ :: _ :: _, h => simp at h
+    | some k =>
+      rw [hcv] at h
+      match m, h, hkind with
+      | [(t, v)], h, hkind =>
+        simp only [Bool.and_eq_true, beq_iff_eq] at h
+        obtain ⟨ht, hv⟩ := h
+        subst ht; subst hv
+        rw [x.out_eq e hno, hkind, constVal_sound x.nodes x.env (n + 1) n v hcv hn]
+        simp
+  | _ => rw [hkind] at h; simp at h
+
 theorem checkNode_sound (x : Ctx) (n : Nat) (hn : n < x.nodes.size)
     (ih : ∀ m, m < n → Holds x.E x.nodes x.env x.bind m)
     (h : checkNode x.c x.nodes x.bind n = true) : Holds x.E x.nodes x.env x.bind n := by
@@ -2112,8 +2159,10 @@ theorem checkNode_sound (x : Ctx) (n : Nat) (hn : n < x.nodes.size)
         exact sound_allCmp x n e s hn b op rhs out ty hk hb ih h
       | _ =>
         rw [hk] at h
-        simp only [checkEnt] at h
-        exact sound_lowered x n e s hn hb ih h
+        simp only [checkEnt, Bool.or_eq_true] at h
+        rcases h with h | h
+        · exact sound_folded x n e s hn hb (by intro name ty v hh; rw [hnd] at hh; injection hh with hh; rw [hk] at hh; cases hh) h
+        · exact sound_lowered x n e s hn hb ih h
     | sum es s =>
       rw [hb] at h
       simp only at h
@@ -2256,6 +2305,19 @@ theorem gt_ite_one (b : Bool) : cmp .gt (if b = true then (1 : I32) else 0) 0 = 
 
 /-- **C06.** A placed entity whose circuit condition passes `enableIs` is enabled exactly when the value the
 program assigns to `.enable` is positive. -/
+theorem condIs_sound (x : Ctx) (i : Nat) (cd : Cond) (op : CmpOp) (a b : Arg) (m : Nat)
+    (ha : argBelow m a = true) (hb : argBelow m b = true)
+    (ih : ∀ j, j < m → Holds x.E x.nodes x.env x.bind j)
+    (h : condIs x.c x.nodes x.bind i cd op a b = true) :
+    cd.eval (x.c.readR x.E i) (x.c.readG x.E i) none = cmp op (x.av a) (x.av b) := by
+  unfold condIs at h
+  simp only [Bool.and_eq_true, Bool.or_eq_true, Bool.not_eq_true', beq_iff_eq] at h
+  obtain ⟨⟨hplain, hue⟩, h⟩ := h
+  rw [cond_eval_plain cd _ _ hplain hue]
+  rcases h with ⟨⟨hop, h1⟩, h2⟩ | ⟨⟨hop, h1⟩, h2⟩
+  · rw [matchOperand_sound x i cd.first a m ha ih h1, matchOperand_sound x i cd.second b m hb ih h2, hop]
+  · rw [matchOperand_sound x i cd.first b m hb ih h1, matchOperand_sound x i cd.second a m ha ih h2, hop, cmp_mirror]
+
 theorem enable_sound (x : Ctx) (hall : ∀ m, m < x.nodes.size → Holds x.E x.nodes x.env x.bind m)
     (i : Nat) (w : Arg) (h : enableIs x.c x.nodes x.bind i w = true) :
     ∃ cd, x.c.kind i = .controlled (some cd) ∧
@@ -2292,9 +2354,8 @@ theorem enable_sound (x : Ctx) (hall : ∀ m, m < x.nodes.size → Holds x.E x.n
           | cmp op a b ty =>
             rw [hkm] at h
             simp only [Bool.and_eq_true, Bool.not_eq_true', beq_iff_eq] at h
-            obtain ⟨⟨⟨⟨⟨⟨ha, hb⟩, hop⟩, hplain⟩, hue⟩, h1⟩, h2⟩ := h
-            rw [cond_eval_plain cd _ _ hplain hue, matchOperand_sound x i cd.first a m ha hallm h1,
-              matchOperand_sound x i cd.second b m hb hallm h2, hop]
+            obtain ⟨⟨ha, hb⟩, hci⟩ := h
+            rw [condIs_sound x i cd op a b m ha hb hallm hci]
             show _ = cmp .gt (nodeVal x.nodes x.env m) 0
             rw [nodeVal_cmp x.nodes x.env m hm op a b ty hkm ha hb, gt_boolI]
             rfl
@@ -2343,9 +2404,8 @@ theorem enable_sound (x : Ctx) (hall : ∀ m, m < x.nodes.size → Holds x.E x.n
             | node q => simp at h
             | int k =>
               simp only [Bool.and_eq_true, Bool.not_eq_true', beq_iff_eq] at h
-              obtain ⟨⟨⟨⟨⟨⟨⟨hk0, ha⟩, hb⟩, hop⟩, hplain⟩, hue⟩, h1⟩, h2⟩ := h
-              rw [cond_eval_plain cd _ _ hplain hue, matchOperand_sound x i cd.first a m ha hallm h1,
-                matchOperand_sound x i cd.second b m hb hallm h2, hop]
+              obtain ⟨⟨⟨hk0, ha⟩, hb⟩, hci⟩ := h
+              rw [condIs_sound x i cd op a b m ha hb hallm hci]
               show _ = cmp .gt (nodeVal x.nodes x.env m) 0
               rw [nodeVal_gate x.nodes x.env m hm op a b (.int k) ty hkm ha hb rfl]
               have hkv : argVal x.nodes (evalNodes x.nodes x.env) (.int k) = k := rfl
